@@ -1,0 +1,13 @@
+//go:build verif
+
+package snowflake
+
+// Proof harness for govc (property C07, see /verif/DESIGN.md): client code that converts the date form of an id
+// back. govc verifies this body against the contracts of CnStyle and FromChStyle (zz_contracts_cn_verif.go), which
+// makes FromChStyle(CnStyle(id)) == id a checked consequence of the two contracts and the stated facts about the
+// time and fmt packages. Compiled only with the build tag `verif`; never called.
+
+func verifRoundTripCn(id int64) (int64, error) {
+	var v = CnStyle(id)
+	return FromChStyle(v)
+}
